@@ -52,10 +52,10 @@ def flag (sh : Shared) : Prop := sh.closing = true ∨ sh.closed = true
 
 /-- steps that test the flags go straight on when neither flag is set -/
 theorem exec_rest_noflag (v : Variant) (t : Tid) (st : Step) (r : List Step) (sh : Shared) (c : Cur)
-    (h1 : sh.closing = false) (h2 : sh.closed = false) :
+    (h1 : sh.closing = false) (h2 : sh.closed = false) (hw : isWrite st = false) :
     (exec v t st r sh c).2.rest = r ∨ ((exec v t st r sh c).2.rest = toRelease r ∧ inOnly st = true) ∨
       (∃ a, st = .brIfErr a) := by
-  cases st <;> simp [exec, h1, h2, inOnly] <;> (try split) <;> simp
+  cases st <;> first | (cases hw; done) | (simp [exec, h1, h2, inOnly] <;> (try split) <;> simp)
 
 theorem owes_noSC (r : List Step) (h : noSC r = true) : owes r = false := by
   induction r with
@@ -182,7 +182,9 @@ theorem kInv_stepN (env : Env) (v : Variant) (cfg : Cfg) (s : State) (t : Tid) (
             | true => exact Or.inl (flag_stable v t st r s.sh c hclear (Or.inr h2))
             | false =>
               right
-              rcases exec_rest_noflag v t st r s.sh c h1 h2 with e3 | ⟨e3, hin⟩ | ⟨a, e3⟩
+              have hwst : isWrite st = false := by
+                rw [hv] at hnw; cases st <;> first | rfl | cases hnw
+              rcases exec_rest_noflag v t st r s.sh c h1 h2 hwst with e3 | ⟨e3, hin⟩ | ⟨a, e3⟩
               · rw [e3]; exact h
               · rw [e3, owes_toRelease r]
                 · exact h
@@ -205,6 +207,12 @@ theorem kInv_stepN (env : Env) (v : Variant) (cfg : Cfg) (s : State) (t : Tid) (
       · exact Or.inl h
       · rw [hr, owes_cons _ _ (by intro e; cases e)] at h; exact Or.inr h
     cases o with
+    | dead _ =>
+      refine kInv_after v cfg s t c _ B.M K hc rfl id ?_
+      intro call hcall hcl
+      rcases hkeep call hcall hcl with h | h
+      · exact Or.inl h
+      · exact Or.inr (by simp only; rw [owes_toRelease r hhr]; exact h)
     | fail _ =>
       refine kInv_after v cfg s t c _ B.M K hc rfl id ?_
       intro call hcall hcl
@@ -231,6 +239,12 @@ theorem kInv_stepN (env : Env) (v : Variant) (cfg : Cfg) (s : State) (t : Tid) (
       · exact Or.inl h
       · rw [hr, owes_cons _ _ (by intro e; cases e)] at h; exact Or.inr h
     cases o with
+    | dead _ =>
+      refine kInv_after v cfg s t c _ B.M K hc rfl id ?_
+      intro call hcall hcl
+      rcases hkeep call hcall hcl with h | h
+      · exact Or.inl h
+      · exact Or.inr (by simp only; rw [owes_toRelease r hhr]; exact h)
     | fail _ =>
       refine kInv_after v cfg s t c _ B.M K hc rfl id ?_
       intro call hcall hcl
